@@ -159,8 +159,31 @@ func c07R1(c *Ctx, rule string) {
 			}
 		}
 	})
-	if pfp == nil || reg == nil || dec == nil {
-		c.Bad(rule, "required checks present in AuthFirstPacket", c.atFn(f), fmt.Sprintf("processFirstPacket=%v registerRandom=%v decryptClientInfo=%v", pfp != nil, reg != nil, dec != nil))
+	// the replay test written in line (lookup + insert on the replay memory in this very function): the lookup's ok is
+	// the verdict
+	var regLookup *ssa.Lookup
+	if reg == nil {
+		if urF := p.Field("internal/server", "State", "UsedRandom"); urF != nil {
+			var ins bool
+			allInstrs(f, func(i ssa.Instruction) {
+				switch x := i.(type) {
+				case *ssa.Lookup:
+					if fv, _ := loadedField(x.X); fv == urF && x.CommaOk {
+						regLookup = x
+					}
+				case *ssa.MapUpdate:
+					if fv, _ := loadedField(x.Map); fv == urF {
+						ins = true
+					}
+				}
+			})
+			if !ins {
+				regLookup = nil
+			}
+		}
+	}
+	if pfp == nil || (reg == nil && regLookup == nil) || dec == nil {
+		c.Bad(rule, "required checks present in AuthFirstPacket", c.atFn(f), fmt.Sprintf("processFirstPacket=%v registerRandom=%v decryptClientInfo=%v", pfp != nil, reg != nil || regLookup != nil, dec != nil))
 		return
 	}
 	rs := successPoints(f)
@@ -173,7 +196,10 @@ func c07R1(c *Ctx, rule string) {
 		g3 := hasNilErrGuardIn(sp.atoms, dec, 1)
 		g2 := false
 		for _, a := range sp.atoms {
-			if a.Kind == "call" && !a.Pol && a.Call == reg {
+			if a.Kind == "call" && !a.Pol && reg != nil && a.Call == reg {
+				g2 = true
+			}
+			if a.Kind == "ok" && !a.Pol && regLookup != nil && a.X == ssa.Value(regLookup) {
 				g2 = true
 			}
 		}
